@@ -22,6 +22,10 @@ def program():
         for t2 in SMALL:
             if t2 != t:
                 names.append(("cast", "cast", t, t2)); fns.append("fn cast_%s_%s(a: %s) -> %s { return a as %s; }" % (t, t2, t, t2, t2))
+    for t in SMALL:
+        # a value that goes through memory: stored into a struct field, the struct copied, the field loaded
+        names.append(("mem", "mem", t, t))
+        fns.append("type M_%s struct { .P: i64, .F: %s };\nfn mem_mem_%s(a: %s) -> %s { let s: M_%s = { .P = 1, .F = a } as M_%s; return s.F; }" % (t, t, t, t, t, t, t))
     return 'import "std/io";\n' + "\n".join(fns) + "\nfn main() { }\n", names
 
 
@@ -77,7 +81,7 @@ def operand_values(t, rng, extra=3):
 
 def operand_tuples(kind, t, rng, tier):
     vals = operand_values(t, rng)
-    if kind in ("neg", "cast"):
+    if kind in ("neg", "cast", "mem"):
         return [(v,) for v in vals]
     lo, hi = type_range(t)
     pairs = [(lo, -1), (hi, 1), (hi, hi), (lo, lo), (lo, 1), (0, lo), (7, 2), (-7, 2), (7, -2), (-7, -2), (100, 27), (hi, 2), (lo, 2), (1, hi), (hi, lo), (lo, hi), (0, 0), (3, 3),
@@ -147,6 +151,9 @@ def run_chunks(chunks, target):
     return obs, problems
 
 
+MEM_ROWS = []
+
+
 def gen_qbesel(tier="quick", seed_value=1, run=True):
     """Compiles the selection probe program with the compiler of the current tree (-keep-gen), writes Gen/QbeSel.lean from the emitted IL and,
     when `run`, executes observation programs: every function is called on edge and random operands and its printed result recorded.
@@ -170,11 +177,26 @@ def gen_qbesel(tier="quick", seed_value=1, run=True):
         fns = {}
     else:
         fns = parse_functions(open(ssa_path).read())
+    SSA_TEXT = [open(ssa_path).read() if os.path.exists(ssa_path) else ""]
     shutil.rmtree(base, ignore_errors=True)
     if run and fns:
         o, pr = run_chunks(observation_chunks(tier, seed_value), "native")
         obs += o; problems += pr
+    mem_rows = []
     for kind, op, t1, t2 in names:
+        if kind != "mem": continue
+        m = re.search(r"function (\w) \$mem_mem_%s\((\w) (%%\w+)\) \{\n(.*?)\n\}" % t1, SSA_TEXT[0], re.S)
+        if not m:
+            problems.append("function mem_mem_%s not found in the generated IL" % t1); continue
+        param, body = m.group(3), m.group(4)
+        st = re.findall(r"^\s*(store\w) %s, " % re.escape(param), body, re.M)
+        ret = re.search(r"^\s*ret (%\w+)", body, re.M)
+        ld = re.search(r"^\s*%s =(\w) (load\w+) " % re.escape(ret.group(1)), body, re.M) if ret else None
+        if len(st) != 1 or not ld:
+            problems.append("function mem_mem_%s: cannot identify the store of the parameter / the load that is returned: %s" % (t1, body[-300:])); continue
+        mem_rows.append((t1, st[0], ld.group(2), ld.group(1)))
+    for kind, op, t1, t2 in names:
+        if kind == "mem": continue
         fname = fname_of(kind, op, t1, t2)
         f = fns.get(fname)
         if not f:
@@ -195,8 +217,11 @@ def gen_qbesel(tier="quick", seed_value=1, run=True):
     lines = ["-- REGENERATED by /verif/lib/qbesel.py from IL emitted by the current /repo compiler; do not edit.", "import FerretVerif.Model.QbeSem", "namespace FerretVerif.Gen", "open FerretVerif.QbeSem", "",
              "def qbeSel : List Row := ["]
     lines.append(",\n".join("  ⟨.%s, \"%s\", %s, %s, [%s]⟩" % (k, op, ty_lean(t1), ty_lean(t2), ", ".join(seq)) for k, op, t1, t2, seq, raw in rows))
+    lines += ["]", "", "def qbeMem : List MemRow := ["]
+    lines.append(",\n".join("  ⟨%s, \"%s\", \"%s\", .%s⟩" % (ty_lean(t), st, ld, c) for t, st, ld, c in mem_rows))
     lines += ["]", "end FerretVerif.Gen", ""]
     write_gen("QbeSel", "\n".join(lines))
+    MEM_ROWS[:] = mem_rows
     return problems, rows, obs
 
 
@@ -209,7 +234,15 @@ def check_selection(rep, pid, tier, stats):
         rep.fail("tie:qbesel:" + hashlib.sha1(pr.encode()).hexdigest()[:10], "instruction-selection table cannot be regenerated: " + pr, {"kind": "broken-obligation", "detail": pr}, no_input=True)
     bykey = {(k, op, t1, t2): raw for k, op, t1, t2, seq, raw in rows}
     qs, meta = [], []
+    mem_compared = 0
     for kind, op, t1, t2, args, printed in obs:
+        if kind == "mem":
+            mem_compared += 1
+            if printed != str(args[0]) and not any(v[0] == "sel:mem:%s" % t1 for v in rep.violations):
+                rep.fail("sel:mem:%s" % t1, "a %s value %d stored into a struct field and loaded back prints %r (store / load instructions emitted: %s)" %
+                         (t1, args[0], printed, [r for r in MEM_ROWS if r[0] == t1]),
+                         {"kind": "selection", "function": "mem_mem_" + t1, "operands": list(args), "printed": printed, "expected": str(args[0])})
+            continue
         raw = bykey.get((kind, op, t1, t2))
         if raw is None: continue
         qs.append("%s %s %s %d %s %d %s | %s" % (kind, op, t1[1:], t1[0] == "i", t2[1:], t2[0] == "i", ",".join(str(a) for a in args), " ; ".join(raw)))
@@ -248,6 +281,7 @@ def check_selection(rep, pid, tier, stats):
         else:
             rep.fail("selshape:%s:%s:%s:%s" % key, "the sequence now emitted for %s %s->%s (%s) is not of a shape proved correct (theorem sel_table_known_shapes no longer checks)" % (key[1], key[2], key[3], bykey[key]),
                      {"kind": "broken-obligation", "theorem": "FerretVerif.C01.sel_table_known_shapes", "row": list(key), "sequence": bykey[key]}, no_input=True)
+    stats["selection_memory"] = {"rows": len(MEM_ROWS), "observations_compared": mem_compared, "ops": {r[0]: [r[1], r[2]] for r in MEM_ROWS}}
     stats["selection"] = {"rows": len(rows), "rows_of_proved_shape": len(rows) - len(other_rows), "observations_compared": compared, "mismatches": real_bad,
                           "per_kind": {k: sum(1 for m in meta if m[0] == k) for k in ("bin", "cmp", "neg", "cast")}}
     return stats["selection"]
